@@ -1,6 +1,6 @@
 (* C17/Props.v -- pinned property theorems; nothing but statements closed by `exact`. *)
 From NV.Common Require Import Base.
-From NV.C17 Require Import Types Model Proofs Inst.
+From NV.C17 Require Import Types Model Proofs Mgr MgrProofs Inst.
 From NV.gen Require Import Gen_C17.
 Open Scope N_scope.
 
@@ -28,7 +28,34 @@ Theorem C17_failed_inc_bounded : forall g, greach gen_supersedes g ->
   forall r m e, get (rep g r) m = Some e -> health e = 2 -> inc e <= ann g m.
 Proof. exact (failed_inc_bounded gen_supersedes gen_sup_spec). Qed.
 
+(* Clauses 2 and 3 again, one layer up: the GossipMembershipManager message layer (Mgr.v) -- handle_gossip
+   (Sync with the incarnation-delta filter and the sender-is-alive mark, Suspect incl. self-refutation,
+   Alive, PingReq/PingAck), gossip_round with suspicion expiry, suspect_node -- for a cluster of R managers
+   and every schedule of rounds, local suspicions and deliveries (any order, duplication, loss), for every
+   max_incarnation_delta and both expiry settings. *)
+Theorem C17_manager_never_backwards : forall maxd expire ops s r,
+  clock (lww (nth_mgr (mgrs s) r)) <= clock (lww (nth_mgr (mgrs (mrun gen_supersedes maxd expire s ops)) r)) /\
+  inc_le (lww (nth_mgr (mgrs s) r)) (lww (nth_mgr (mgrs (mrun gen_supersedes maxd expire s ops)) r)).
+Proof. exact (mrun_mono gen_supersedes gen_sup_spec). Qed.
+
+Theorem C17_manager_failed_inc_bounded : forall maxd expire R ops r m e,
+  get (lww (nth_mgr (mgrs (mrun gen_supersedes maxd expire (minit gen_supersedes R) ops)) r)) m = Some e ->
+  health e = 2 ->
+  inc e <= myinc (nth_mgr (mgrs (mrun gen_supersedes maxd expire (minit gen_supersedes R) ops)) m).
+Proof. exact (mgr_failed_inc_bounded gen_supersedes). Qed.
+
+(* non-vacuity: a two-manager schedule after which manager 0 records member 1 as Failed, and one in which
+   a self-refutation raised member 1's counter and manager 0 recorded the announced incarnation *)
+Example C17_manager_nonvacuous :
+  (exists e, get (lww (nth_mgr (mgrs (mrun gen_supersedes 100 true (minit gen_supersedes 2)
+                 [MSuspectNode 0 1; MRound 0 [1]])) 0)) 1 = Some e /\ health e = 2) /\
+  (exists e, get (lww (nth_mgr (mgrs (mrun gen_supersedes 100 true (minit gen_supersedes 2)
+                 [MSuspectNode 0 1; MDeliver 0; MDeliver 2])) 0)) 1 = Some e /\ inc e = 1).
+Proof. split; eexists; vm_compute; split; reflexivity. Qed.
+
 Print Assumptions C17_convergence.
 Print Assumptions C17_convergence_refuted.
 Print Assumptions C17_never_backwards.
 Print Assumptions C17_failed_inc_bounded.
+Print Assumptions C17_manager_never_backwards.
+Print Assumptions C17_manager_failed_inc_bounded.
